@@ -55,6 +55,13 @@ orc_x86_code_buffer_is_full (OrcCompiler *p)
 #define ORC_VEX_W1 (1U << 5)
 // Special instruction that uses 66 but not the escape 0F
 #define ORC_SKIP_ESCAPE (1U << 6)
+// The (last) source operand is an XMM register or 128 bits of memory whatever
+// the vector length: the count of a shift, the source of a widening move or
+// conversion.  Only the listing needs to know: the encoding is the same.
+#define ORC_VEX_SRC_XMM (1U << 7)
+// The destination is an XMM register even for a 256-bit source: narrowing
+// conversions
+#define ORC_VEX_DEST_XMM (1U << 8)
 
 static const OrcX86Opcode orc_x86_opcodes[] = {
   { "punpcklbw", ORC_X86_INSN_TYPE_MMXM_MMX, 0, ORC_SIMD_PREFIX_MMX, 0x60 },
@@ -72,17 +79,17 @@ static const OrcX86Opcode orc_x86_opcodes[] = {
   { "punpcklqdq", ORC_X86_INSN_TYPE_MMXM_MMX, 0, ORC_SIMD_PREFIX_MMX, 0x6c },
   { "punpckhqdq", ORC_X86_INSN_TYPE_MMXM_MMX, 0, ORC_SIMD_PREFIX_MMX, 0x6d },
   { "movdqa", ORC_X86_INSN_TYPE_MMXM_MMX, 0, ORC_SIMD_PREFIX_MMX, 0x6f },
-  { "psraw", ORC_X86_INSN_TYPE_MMXM_MMX, 0, ORC_SIMD_PREFIX_MMX, 0xe1 },
-  { "psrlw", ORC_X86_INSN_TYPE_MMXM_MMX, 0, ORC_SIMD_PREFIX_MMX, 0xd1 },
-  { "psllw", ORC_X86_INSN_TYPE_MMXM_MMX, 0, ORC_SIMD_PREFIX_MMX, 0xf1 },
-  { "psrad", ORC_X86_INSN_TYPE_MMXM_MMX, 0, ORC_SIMD_PREFIX_MMX, 0xe2 },
-  { "psrld", ORC_X86_INSN_TYPE_MMXM_MMX, 0, ORC_SIMD_PREFIX_MMX, 0xd2 },
-  { "pslld", ORC_X86_INSN_TYPE_MMXM_MMX, 0, ORC_SIMD_PREFIX_MMX, 0xf2 },
-  { "psrlq", ORC_X86_INSN_TYPE_MMXM_MMX, 0, ORC_SIMD_PREFIX_MMX, 0xd3 },
-  { "psllq", ORC_X86_INSN_TYPE_MMXM_MMX, 0, ORC_SIMD_PREFIX_MMX, 0xf3 },
+  { "psraw", ORC_X86_INSN_TYPE_MMXM_MMX, ORC_VEX_SRC_XMM, ORC_SIMD_PREFIX_MMX, 0xe1 },
+  { "psrlw", ORC_X86_INSN_TYPE_MMXM_MMX, ORC_VEX_SRC_XMM, ORC_SIMD_PREFIX_MMX, 0xd1 },
+  { "psllw", ORC_X86_INSN_TYPE_MMXM_MMX, ORC_VEX_SRC_XMM, ORC_SIMD_PREFIX_MMX, 0xf1 },
+  { "psrad", ORC_X86_INSN_TYPE_MMXM_MMX, ORC_VEX_SRC_XMM, ORC_SIMD_PREFIX_MMX, 0xe2 },
+  { "psrld", ORC_X86_INSN_TYPE_MMXM_MMX, ORC_VEX_SRC_XMM, ORC_SIMD_PREFIX_MMX, 0xd2 },
+  { "pslld", ORC_X86_INSN_TYPE_MMXM_MMX, ORC_VEX_SRC_XMM, ORC_SIMD_PREFIX_MMX, 0xf2 },
+  { "psrlq", ORC_X86_INSN_TYPE_MMXM_MMX, ORC_VEX_SRC_XMM, ORC_SIMD_PREFIX_MMX, 0xd3 },
+  { "psllq", ORC_X86_INSN_TYPE_MMXM_MMX, ORC_VEX_SRC_XMM, ORC_SIMD_PREFIX_MMX, 0xf3 },
   { "psrldq", ORC_X86_INSN_TYPE_MMXM_MMX, 0, ORC_SIMD_PREFIX_MMX, 0x73 },
   { "pslldq", ORC_X86_INSN_TYPE_MMXM_MMX, 0, ORC_SIMD_PREFIX_MMX, 0x73 },
-  { "psrlq", ORC_X86_INSN_TYPE_MMXM_MMX, 0, ORC_SIMD_PREFIX_MMX, 0xd3 },
+  { "psrlq", ORC_X86_INSN_TYPE_MMXM_MMX, ORC_VEX_SRC_XMM, ORC_SIMD_PREFIX_MMX, 0xd3 },
   { "pcmpeqb", ORC_X86_INSN_TYPE_MMXM_MMX, 0, ORC_SIMD_PREFIX_MMX, 0x74 },
   { "pcmpeqw", ORC_X86_INSN_TYPE_MMXM_MMX, 0, ORC_SIMD_PREFIX_MMX, 0x75 },
   { "pcmpeqd", ORC_X86_INSN_TYPE_MMXM_MMX, 0, ORC_SIMD_PREFIX_MMX, 0x76 },
@@ -133,12 +140,12 @@ static const OrcX86Opcode orc_x86_opcodes[] = {
   { "pabsb", ORC_X86_INSN_TYPE_MMXM_MMX, ORC_VEX_ESCAPE_38, ORC_SIMD_PREFIX_MMX, 0x1c },
   { "pabsw", ORC_X86_INSN_TYPE_MMXM_MMX, ORC_VEX_ESCAPE_38, ORC_SIMD_PREFIX_MMX, 0x1d },
   { "pabsd", ORC_X86_INSN_TYPE_MMXM_MMX, ORC_VEX_ESCAPE_38, ORC_SIMD_PREFIX_MMX, 0x1e },
-  { "pmovsxbw", ORC_X86_INSN_TYPE_MMXM_MMX, ORC_VEX_ESCAPE_38, ORC_SIMD_PREFIX_MMX, 0x20 },
-  { "pmovsxbd", ORC_X86_INSN_TYPE_MMXM_MMX, ORC_VEX_ESCAPE_38, ORC_SIMD_PREFIX_MMX, 0x21 },
-  { "pmovsxbq", ORC_X86_INSN_TYPE_MMXM_MMX, ORC_VEX_ESCAPE_38, ORC_SIMD_PREFIX_MMX, 0x22 },
-  { "pmovsxwd", ORC_X86_INSN_TYPE_MMXM_MMX, ORC_VEX_ESCAPE_38, ORC_SIMD_PREFIX_MMX, 0x23 },
-  { "pmovsxwq", ORC_X86_INSN_TYPE_MMXM_MMX, ORC_VEX_ESCAPE_38, ORC_SIMD_PREFIX_MMX, 0x24 },
-  { "pmovsxdq", ORC_X86_INSN_TYPE_MMXM_MMX, ORC_VEX_ESCAPE_38, ORC_SIMD_PREFIX_MMX, 0x25 },
+  { "pmovsxbw", ORC_X86_INSN_TYPE_MMXM_MMX, ORC_VEX_ESCAPE_38 | ORC_VEX_SRC_XMM, ORC_SIMD_PREFIX_MMX, 0x20 },
+  { "pmovsxbd", ORC_X86_INSN_TYPE_MMXM_MMX, ORC_VEX_ESCAPE_38 | ORC_VEX_SRC_XMM, ORC_SIMD_PREFIX_MMX, 0x21 },
+  { "pmovsxbq", ORC_X86_INSN_TYPE_MMXM_MMX, ORC_VEX_ESCAPE_38 | ORC_VEX_SRC_XMM, ORC_SIMD_PREFIX_MMX, 0x22 },
+  { "pmovsxwd", ORC_X86_INSN_TYPE_MMXM_MMX, ORC_VEX_ESCAPE_38 | ORC_VEX_SRC_XMM, ORC_SIMD_PREFIX_MMX, 0x23 },
+  { "pmovsxwq", ORC_X86_INSN_TYPE_MMXM_MMX, ORC_VEX_ESCAPE_38 | ORC_VEX_SRC_XMM, ORC_SIMD_PREFIX_MMX, 0x24 },
+  { "pmovsxdq", ORC_X86_INSN_TYPE_MMXM_MMX, ORC_VEX_ESCAPE_38 | ORC_VEX_SRC_XMM, ORC_SIMD_PREFIX_MMX, 0x25 },
   { "pmuldq", ORC_X86_INSN_TYPE_MMXM_MMX, ORC_VEX_ESCAPE_38, ORC_SIMD_PREFIX_MMX, 0x28 },
   { "pcmpeqq", ORC_X86_INSN_TYPE_MMXM_MMX, ORC_VEX_ESCAPE_38, ORC_SIMD_PREFIX_MMX, 0x29 },
   { "packusdw", ORC_X86_INSN_TYPE_MMXM_MMX, ORC_VEX_ESCAPE_38, ORC_SIMD_PREFIX_MMX, 0x2b },
@@ -176,11 +183,11 @@ static const OrcX86Opcode orc_x86_opcodes[] = {
   { "cmpleps", ORC_X86_INSN_TYPE_SSEM_SSE, 0, ORC_SIMD_PREFIX_ESCAPE_ONLY, 0xc2, 2 },
   { "cmplepd", ORC_X86_INSN_TYPE_SSEM_SSE, 0, ORC_VEX_SIMD_PREFIX_66, 0xc2, 2 },
   { "cvttps2dq", ORC_X86_INSN_TYPE_MMXM_MMX, 0, ORC_VEX_SIMD_PREFIX_F3, 0x5b },
-  { "cvttpd2dq", ORC_X86_INSN_TYPE_MMXM_MMX, 0, ORC_VEX_SIMD_PREFIX_66, 0xe6 },
+  { "cvttpd2dq", ORC_X86_INSN_TYPE_MMXM_MMX, ORC_VEX_DEST_XMM, ORC_VEX_SIMD_PREFIX_66, 0xe6 },
   { "cvtdq2ps", ORC_X86_INSN_TYPE_MMXM_MMX, 0, ORC_SIMD_PREFIX_ESCAPE_ONLY, 0x5b },
-  { "cvtdq2pd", ORC_X86_INSN_TYPE_MMXM_MMX, 0, ORC_VEX_SIMD_PREFIX_F3, 0xe6 },
-  { "cvtps2pd", ORC_X86_INSN_TYPE_MMXM_MMX, 0, ORC_SIMD_PREFIX_ESCAPE_ONLY, 0x5a },
-  { "cvtpd2ps", ORC_X86_INSN_TYPE_MMXM_MMX, 0, ORC_VEX_SIMD_PREFIX_66, 0x5a },
+  { "cvtdq2pd", ORC_X86_INSN_TYPE_MMXM_MMX, ORC_VEX_SRC_XMM, ORC_VEX_SIMD_PREFIX_F3, 0xe6 },
+  { "cvtps2pd", ORC_X86_INSN_TYPE_MMXM_MMX, ORC_VEX_SRC_XMM, ORC_SIMD_PREFIX_ESCAPE_ONLY, 0x5a },
+  { "cvtpd2ps", ORC_X86_INSN_TYPE_MMXM_MMX, ORC_VEX_DEST_XMM, ORC_VEX_SIMD_PREFIX_66, 0x5a },
   { "minps", ORC_X86_INSN_TYPE_MMXM_MMX, 0, ORC_SIMD_PREFIX_ESCAPE_ONLY, 0x5d },
   { "minpd", ORC_X86_INSN_TYPE_MMXM_MMX, 0, ORC_VEX_SIMD_PREFIX_66, 0x5d },
   { "maxps", ORC_X86_INSN_TYPE_MMXM_MMX, 0, ORC_SIMD_PREFIX_ESCAPE_ONLY, 0x5f },
@@ -497,8 +504,13 @@ orc_x86_insn_output_asm (OrcCompiler *p, OrcX86Insn *xinsn)
     case ORC_X86_INSN_TYPE_SSEM_SSE:
     case ORC_X86_INSN_TYPE_IMM8_MMXM_MMX:
       if (xinsn->type == ORC_X86_RM_REG) {
+        /* shift counts and the sources of widening instructions are XMM
+         * registers also when the instruction works on YMM registers */
         sprintf(src_op, "%%%s, ",
-            orc_x86_get_simd_regname (operand1, is_sse));
+            orc_x86_get_simd_regname (operand1,
+                (is_sse == ORC_X86_AVX_VEX256_PREFIX &&
+                 (xinsn->opcode->flags & ORC_VEX_SRC_XMM)) ?
+                ORC_X86_AVX_VEX128_PREFIX : is_sse));
       } else if (xinsn->type == ORC_X86_RM_MEMOFFSET) {
         sprintf(src_op, "%d(%%%s), ", xinsn->offset,
             orc_x86_get_regname_ptr (p, operand1));
@@ -697,8 +709,12 @@ orc_x86_insn_output_asm (OrcCompiler *p, OrcX86Insn *xinsn)
     case ORC_X86_INSN_TYPE_IMM8_SSEM_AVX:
     case ORC_X86_INSN_TYPE_REGM_MMX:
     case ORC_X86_INSN_TYPE_IMM8_MMX_SHIFT:
+      /* narrowing conversions write an XMM register */
       sprintf(dst_op, "%%%s",
-            orc_x86_get_simd_regname (xinsn->dest, is_sse));
+            orc_x86_get_simd_regname (xinsn->dest,
+                (is_sse == ORC_X86_AVX_VEX256_PREFIX &&
+                 (xinsn->opcode->flags & ORC_VEX_DEST_XMM)) ?
+                ORC_X86_AVX_VEX128_PREFIX : is_sse));
       break;
     case ORC_X86_INSN_TYPE_MMXM_MMX_REV:
     case ORC_X86_INSN_TYPE_SSEM_SSE_REV:
